@@ -259,6 +259,34 @@ def r3(ctx):
         ctx.check("C05.R3", not bad, key(f, "addr-normalised"), site(f, bad[0] if bad else subs[0]),
                   "`%s[..]` is evaluated on a path where the unix-socket peer address ('') was not normalised: IndexError inside handle_error escapes the worker's last-resort handler "
                   "(no error reply; the sync worker dies)" % ADDR, "addr = addr or ('', -1) dominates every addr[..]")
+    # handle_error trusts exc.req to be a request object: every constructor call that fills the `req` slot passes `self`
+    err_mod = repo.module(ERR)
+    n_req = 0
+    for ff in [x for mn in ("gunicorn.http.message", "gunicorn.http.body", "gunicorn.http.parser", "gunicorn.http.wsgi") for x in repo.module(mn).all_funcs]:
+        for c in walk_own(ff.node):
+            if not isinstance(c, ast.Call):
+                continue
+            q = repo.call_target(ff.module, ff, c) or ""
+            if not (q.startswith(ERR + ".") and repo.has_cls(q)):
+                continue
+            init = repo.lookup_method(q, "__init__")
+            if init is None:
+                continue
+            ps = init.params[1:]
+            ctx.check("C05.R3", len(c.args) <= len(ps), key(ff, "exc-arity|" + norm(c)), site(ff, c), "`%s` passes more arguments than %s takes" % (norm(c), q.split(".")[-1]), "arity ok") if len(c.args) > len(ps) else None
+            # the optional `req=None` slot (InvalidHeader) is what handle_error reads as a request object;
+            # InvalidRequestLine's positional `req` is the offending line text and is only formatted
+            nd = len(init.node.args.defaults)
+            optional = set(init.params[len(init.params) - nd:]) if nd else set()
+            if "req" in ps and "req" in optional:
+                i = ps.index("req")
+                arg = c.args[i] if len(c.args) > i else next((k.value for k in c.keywords if k.arg == "req"), None)
+                if arg is not None:
+                    n_req += 1
+                    ctx.check("C05.R3", isinstance(arg, ast.Name) and arg.id == "self", key(ff, "exc-req-slot|" + norm(c)), site(ff, c),
+                              "`%s` puts `%s` into the `req` slot of the exception: handle_error() uses exc.req as the request object (for the access log) and crashes on anything else "
+                              "-- no error reply, the sync worker dies" % (norm(c), norm(arg)), "req=self")
+    ctx.count("exception constructions with a req argument", n_req)
     # informational: ParseException subclasses outside the tuple end as 500
     pe = [c for c in repo.classes() if c.module.name == ERR and repo.is_subclass(c.qualname, ERR + ".ParseException") and c.qualname != ERR + ".ParseException"]
     missing = [c.name for c in pe if not any(repo.is_subclass(c.qualname, t) for t in T)]
